@@ -19,6 +19,7 @@ import (
 	"errors"
 	"fmt"
 	"io"
+	"reflect"
 	"strconv"
 	"strings"
 	"testing"
@@ -457,10 +458,38 @@ type Name string
 // Ratio is a named float32.
 type Ratio float32
 
+var wideTypes = map[string]reflect.Type{
+	"uint64": reflect.TypeOf(uint64(0)), "uint": reflect.TypeOf(uint(0)), "int64": reflect.TypeOf(int64(0)),
+	"int32": reflect.TypeOf(int32(0)), "uint32": reflect.TypeOf(uint32(0)), "int16": reflect.TypeOf(int16(0)),
+	"uint16": reflect.TypeOf(uint16(0)), "int8": reflect.TypeOf(int8(0)), "uint8": reflect.TypeOf(uint8(0)),
+}
+
 // goVal builds the Go value of a description: internal/vals for everything it knows, plus the
 // embedding struct kinds of this package ("emb", "pemb", "*emb" and slices of them), also
 // inside []any and maps.
 func goVal(v vals.V) any {
+	if e, n, ok := wideKind(v.K); ok {
+		et := wideTypes[e]
+		var rv reflect.Value
+		if n > 0 {
+			rv = reflect.New(reflect.ArrayOf(n, et)).Elem()
+		} else {
+			rv = reflect.MakeSlice(reflect.SliceOf(et), len(v.L), len(v.L))
+		}
+		for i, x := range v.L {
+			if i >= rv.Len() {
+				break
+			}
+			if strings.HasPrefix(e, "u") {
+				u, _ := strconv.ParseUint(x.S, 10, 64)
+				rv.Index(i).SetUint(u)
+			} else {
+				s, _ := strconv.ParseInt(x.S, 10, 64)
+				rv.Index(i).SetInt(s)
+			}
+		}
+		return rv.Interface()
+	}
 	switch v.K {
 	case "[]any":
 		out := make([]any, len(v.L))
